@@ -155,4 +155,4 @@ def replay(ctx, r):
     if isinstance(r.get('replay'), dict) and r['replay'].get('kernel') == 'sched_async':
         from .. import sched_async
         return sched_async.replay(ctx, r['replay'])
-    return S.replay_case(ctx, r)
+    return S.replay_case(ctx, r, oracle=oracle)
